@@ -2,6 +2,7 @@ package formula
 
 import (
 	"context"
+	"fmt"
 	"time"
 
 	"github.com/ericlagergren/decimal"
@@ -21,6 +22,7 @@ var vpBuiltinNames = []string{
 	// names that are not builtins: a missing name, data values that are not functions, host functions of odd shapes
 	"undefinedName", "notAFunction", "hostSlice", "hostOneResult", "hostThreeResults", "hostNonError", "hostIface", "hostMap", "hostVar", "true",
 	"hostCtxVar", "hostCtx", "hostStruct", "hostPtr", "hostNested", "hostNilFunc", "hostIfaces", "hostIfaceMap",
+	"hostArr", "hostArrPtr", "hostErrParam", "hostStringer", "hostUint", "hostBytes", "hostNilBig", "hostNilPtrResult", "hostIntArr",
 }
 
 const (
@@ -42,8 +44,16 @@ const (
 	akIntMap    // map with non-string keys
 	akNilMap    // typed nil map
 	akNullMap   // map holding a null entry
+	akNilBig    // typed nil *decimal.Big
+	akIfStruct  // struct whose interface field holds a slice (comparable type, uncomparable value)
+	akInts      // Go []int
 	akKinds
 )
+
+type vpBoxed struct {
+	ID  int
+	Box interface{}
+}
 
 type vpTagged struct {
 	ID   int
@@ -96,6 +106,12 @@ func vpArgValue(i int) interface{} {
 		return map[string]interface{}(nil)
 	case akNullMap:
 		return map[string]interface{}{"k": nil, "j": 1}
+	case akNilBig:
+		return (*decimal.Big)(nil)
+	case akIfStruct:
+		return vpBoxed{ID: 1, Box: []int{1}}
+	case akInts:
+		return []int{7}
 	}
 	return nil
 }
@@ -126,6 +142,15 @@ func VP_C03_calls() {
 		"hostNilFunc":      (func(x interface{}) (int, error))(nil),
 		"hostIfaces":       func(xs []interface{}) (int, error) { return len(xs), nil },
 		"hostIfaceMap":     func(m map[string]interface{}) (int, error) { return len(m), nil },
+		"hostArr":          func(a [2]int) (int, error) { return a[0], nil },
+		"hostArrPtr":       func(a *[2]int) (int, error) { return 2, nil },
+		"hostErrParam":     func(e error) (int, error) { return 1, nil },
+		"hostStringer":     func(x fmt.Stringer) (int, error) { return 1, nil },
+		"hostUint":         func(x uint8) (int, error) { return int(x), nil },
+		"hostBytes":        func(b []byte) (int, error) { return len(b), nil },
+		"hostNilBig":       func() (*decimal.Big, error) { return nil, nil },
+		"hostNilPtrResult": func() (*vpPerson, error) { return nil, nil },
+		"hostIntArr":       func(a []int) (int, error) { return len(a), nil },
 	}
 	args := new(NodeList[Expression])
 	names := vpArgNames()
